@@ -3,7 +3,7 @@ CONSTANTS
   Threads = {1,2}
   Groups = {"g1"}
   Nids = {"n1"}
-  OpKinds = {"save","find","snap","rollback","list"}
+  OpKinds = {"save","snap","list"}
   MaxOps = 3
   Dev = {"MemSnapshotTwoSections"}
 INVARIANT InvLinearisable
